@@ -17,6 +17,11 @@ Tie: Model/Harm.lean is hand-written; it is compared with the real code
     sYlm_coefficients (captured by wrapping that function) — bitwise against
     pi * (j + 1/2) / (N + 1) built from the model's rationals;
   * the key order of the coefficient dictionary — exactly;
+  * sYlm_coefficients / sYlm_reconstruct called repeatedly in ONE process on
+    different samplings of identical array shape, in varying order and with the
+    first one revisited: each call equals the model sums at the angles passed in
+    that call (the functions have no hidden state; the Lean model is a pure
+    function by construction, the correspondence carries this to the code);
   * the accept / refuse decision of numerical.interpolate on dyadic-rational
     grids and targets incl. boundary points — exactly.
 
@@ -37,7 +42,7 @@ MODULE = "AurelVerif.Props.C20"
 THEOREMS = ["AurelVerif.C20." + t for t in (
     "sum_range_exact", "phi_quadrature_orthogonal", "phi_quadrature_exact", "psi4_grid_m_orthogonal",
     "spin0_structure", "spin0_is_standard_upto_phase", "conj_symmetry_terms", "conj_symmetry",
-    "coefficients_linear", "roundtrip_partial", "interpolate_bounds_decision", "grid_formulas")]
+    "coefficients_linear", "coefficients_stateless", "roundtrip_partial", "interpolate_bounds_decision", "grid_formulas")]
 LEAN_FILES = ["AurelVerif/Props/C20.lean", "AurelVerif/Lemmas/Harm.lean", "AurelVerif/Lemmas/HarmPhi.lean",
               "AurelVerif/Lemmas/HarmLegendre.lean", "AurelVerif/Lemmas/HarmStd.lean",
               "AurelVerif/Spec/Harm.lean", "AurelVerif/Model/Harm.lean", "Driver/C20.lean"]
@@ -271,6 +276,78 @@ def corr_modes(ctx):
     return bad
 
 
+def corr_history(ctx):
+    """sYlm_coefficients / sYlm_reconstruct are functions of the angles passed in
+    THIS call only: several samplings of identical array shape (different
+    Pythagorean angles, different phi), visited in a seed-dependent order in ONE
+    process, the first one again at the end; every call is compared with
+    sum a_lm Y_lm and sum conj(Y_lm) f w dphi built from the Lean model's
+    polynomial x radicand x phase at the angles actually passed."""
+    from aurel import maths
+    shape, lmax = (2, 3), 3
+    npt = shape[0] * shape[1]
+    keys = [(l, m) for l in range(lmax + 1) for m in range(-l, l + 1)]
+    spins = [-2, ctx.rng.choice([-1, 0, 1, 2])]
+    nsamp = ctx.budget(3, 5)
+    samp = []
+    for _ in range(nsamp):
+        pts = []
+        for a, b, h in ctx.rng.sample(TRIPLES, npt):
+            pts.append((Fraction(a, h), Fraction(b, h)) if ctx.rng.random() < 0.5 else (Fraction(b, h), Fraction(a, h)))
+        th = np.array([2 * math.atan2(float(sn), float(c)) for c, sn in pts]).reshape(shape)
+        ph = np.array([ctx.rng.uniform(0, 2 * math.pi) for _ in range(npt)]).reshape(shape)
+        samp.append((pts, th, ph))
+    lines = ["ylm %d %d %d %d %d %d %d" % (s, l, m, c.numerator, c.denominator, sn.numerator, sn.denominator)
+             for s in spins for (pts, _, _) in samp for (l, m) in keys for (c, sn) in pts]
+    outs = ctx.run_driver("Driver/C20.lean", lines)
+    k = 0
+    Y = {}                                   # (s, sampling) -> {(l, m): model harmonic on the sampling}
+    for s in spins:
+        for i, (pts, th, ph) in enumerate(samp):
+            Y[s, i] = {}
+            for (l, m) in keys:
+                vals = []
+                for j in range(npt):
+                    f = outs[k].split(" ")
+                    k += 1
+                    vals.append(math.sqrt(float(F(f[3])) / math.pi) * float(F(f[1])))
+                Y[s, i][l, m] = np.array(vals).reshape(shape) * np.exp(1j * int(m) * ph)
+    bad, calls = [], 0
+    for s in spins:
+        order = list(range(nsamp))
+        ctx.rng.shuffle(order)
+        order = order + [order[0]] + [ctx.rng.randrange(nsamp)]
+        first = {}
+        for i in order:
+            pts, th, ph = samp[i]
+            rs = np.random.default_rng(1000 * i + s + 7)     # same data whenever sampling i is revisited
+            a = {kk: complex(rs.normal(), rs.normal()) for kk in keys}
+            f = rs.normal(size=shape) + 1j * rs.normal(size=shape)
+            w = rs.uniform(0.5, 1.5, size=shape)
+            dph = 0.37
+            rec = maths.sYlm_reconstruct(s, lmax, a, th, ph)
+            co = maths.sYlm_coefficients(s, lmax, f, th, ph, w, dph)
+            calls += 2
+            rec_m = sum(a[kk] * Y[s, i][kk] for kk in keys)
+            d1 = float(np.max(np.abs(rec - rec_m)))
+            d2 = max(abs(co[kk] - np.sum(np.conj(Y[s, i][kk]) * f * w * dph)) for kk in keys)
+            if d1 > 1e-11 * 40 or d2 > 1e-11 * 40:
+                bad.append(("s=%d sampling %d of shape %s in call order %s" % (s, i, shape, order),
+                            "reconstruct deviates from sum a_lm Y_lm(model) by %r, coefficients from "
+                            "sum conj(Y) f w dphi by %r" % (d1, float(d2))))
+            if i in first:
+                if not (np.array_equal(first[i][0], rec) and all(first[i][1][kk] == co[kk] for kk in keys)):
+                    bad.append(("s=%d sampling %d revisited (order %s)" % (s, i, order), "result differs from its first visit"))
+            else:
+                first[i] = (rec, co)
+    ctx.cov["history_calls"] = calls
+    ctx.cov["history_samplings_same_shape"] = nsamp
+    ctx.obligation("correspondence: sYlm_reconstruct / sYlm_coefficients on %d samplings of ONE shape in one process, "
+                   "any order, first revisited — each call equals the model sums at the angles passed (no hidden state)"
+                   % nsamp, not bad, "; ".join("%s -> %s" % b for b in bad[:3]), kind="correspondence")
+    return bad
+
+
 def dyadic(rng, lo, hi, bits=4):
     return Fraction(rng.randint(lo * 2 ** bits, hi * 2 ** bits), 2 ** bits)
 
@@ -497,6 +574,89 @@ def s_roundtrip(ctx, lband):
     return found
 
 
+def same_shape_samplings(ntheta, seed):
+    """Three angular samplings of the SAME shape (ntheta+1, 2 ntheta+1): the
+    Psi4_lm midpoint grid; Gauss-Legendre nodes x uniform phi with an offset (an
+    exact quadrature for band limit <= ntheta); a randomly jittered grid."""
+    rs = np.random.default_rng(seed)
+    TH, PH, dth, dph = code_grid(ntheta)
+    out = {"midpoint": (TH, PH, np.sin(TH) * dth, dph)}
+    x, w = np.polynomial.legendre.leggauss(ntheta + 1)
+    nphi = 2 * ntheta
+    ph = 2 * np.pi * (np.arange(nphi + 1) + rs.uniform(0.05, 0.95)) / (nphi + 1)
+    T2, P2 = np.meshgrid(np.arccos(x)[::-1], ph, indexing="ij")
+    out["gauss-legendre"] = (T2, P2, w[::-1][:, None] * np.ones_like(T2), 2 * np.pi / (nphi + 1))
+    T3 = np.clip(TH + dth * rs.uniform(-0.3, 0.3, TH.shape), 1e-3, np.pi - 1e-3)
+    P3 = PH + dph * rs.uniform(-0.3, 0.3, PH.shape)
+    out["jittered"] = (T3, P3, np.sin(T3) * dth, dph)
+    return out
+
+
+def history_run(s, lband, ntheta, seed, order):
+    """Visit the samplings in `order` in this process; returns the list of
+    (position, name, what, deviation) that fail.  Oracle: Wigner-d/Jacobi
+    harmonics at the angles actually passed (never maths.sYlm)."""
+    from aurel import maths
+    S = same_shape_samplings(ntheta, seed)
+    keys = [(l, m) for l in range(lband + 1) for m in range(-l, l + 1)]
+    rs = np.random.default_rng(seed + 1)
+    a = {k: (complex(rs.normal(), rs.normal()) if k[0] >= abs(s) else 0.0) for k in keys}
+    g = rs.normal(size=S["midpoint"][0].shape) + 1j * rs.normal(size=S["midpoint"][0].shape)
+    fails, first = [], {}
+    for pos, name in enumerate(order):
+        TH, PH, w, dph = S[name]
+        Y = {k: oracle_sYlm(s, k[0], k[1], TH, PH) for k in keys}
+        rec = maths.sYlm_reconstruct(s, lband, a, TH, PH)
+        d = float(np.max(np.abs(rec - sum(a[k] * Y[k] for k in keys))))
+        if d > 1e-10:
+            fails.append((pos, name, "sYlm_reconstruct vs sum a_lm Y_lm(angles passed)", d))
+        co = maths.sYlm_coefficients(s, lband, g, TH, PH, w, dph)
+        d = float(max(abs(co[k] - np.sum(np.conj(Y[k]) * g * w * dph)) for k in keys))
+        if d > 1e-10 * float(np.sum(np.abs(w)) * dph):
+            fails.append((pos, name, "sYlm_coefficients vs sum conj(Y_lm(angles passed)) f w dphi", d))
+        if name == "gauss-legendre":
+            # exact quadrature: decomposition inverts synthesis, Gram matrix = identity, to round-off
+            back = maths.sYlm_coefficients(s, lband, rec, TH, PH, w, dph)
+            d = float(max(abs(back[k] - a[k]) for k in keys))
+            if d > 1e-10:
+                fails.append((pos, name, "band-limited synthesis -> decomposition on the Gauss-Legendre grid", d))
+            kk = max((k for k in keys if k[0] >= abs(s)), key=lambda k: (k[0], -abs(k[1])))
+            gr = maths.sYlm_coefficients(s, lband, Y[kk], TH, PH, w, dph)
+            d = float(max(abs(gr[k] - (1.0 if k == kk else 0.0)) for k in keys))
+            if d > 1e-10:
+                fails.append((pos, name, "discrete Gram row of mode %s on the Gauss-Legendre grid" % (kk,), d))
+        if name in first:
+            if not (np.array_equal(first[name][0], rec) and all(first[name][1][k] == co[k] for k in keys)):
+                fails.append((pos, name, "revisited sampling gives a different result than on its first visit", float("nan")))
+        else:
+            first[name] = (rec, co)
+    return fails
+
+
+def s_history(ctx):
+    """No hidden state: different samplings of identical array shape in one
+    process, in a seed-dependent order, the first one again at the end."""
+    found = 0
+    for s in (-2, ctx.rng.choice([-1, 0, 1, 2])):
+        ntheta = ctx.rng.choice([6, 8, 10]) if ctx.tier == "quick" else ctx.rng.choice([8, 12, 16])
+        lband = min(ntheta, ctx.budget(4, 6))
+        seed = ctx.rng.getrandbits(31)
+        order = ["midpoint", "gauss-legendre", "jittered"]
+        ctx.rng.shuffle(order)
+        order = order + [order[0], ctx.rng.choice(order[1:])]
+        fails = history_run(s, lband, ntheta, seed, order)
+        ctx.count("history_sentinel_calls", 2 * len(order))
+        if fails:
+            pos, name, what, d = fails[0]
+            found += ctx.violation(
+                "in one process, samplings %s of shape (%d, %d), s=%d, lmax=%d: call %d (%s): %s deviates by %r (%d failing checks)"
+                % (order, ntheta + 1, 2 * ntheta + 1, s, lband, pos, name, what, d, len(fails)),
+                {"kind": "history", "check": "history", "s": s, "lband": lband, "ntheta": ntheta, "seed": seed, "order": order,
+                 "observed": [[p_, n_, w_, d_] for p_, n_, w_, d_ in fails[:6]]},
+                {"site": "sYlm_coefficients", "check": "history", "s": s})
+    return found
+
+
 def s_interpolate(ctx, methods):
     """RegularGridInterpolator through numerical.interpolate: exact at the nodes
     (all methods), exact on trilinear fields (all but nearest), ValueError
@@ -637,6 +797,7 @@ def search(ctx, deep=False):
     found = 0
     found += s_orthonormal(ctx, lmax)
     found += s_oracle_values(ctx, lmax, ctx.budget(6, 20) * (2 if deep else 1))
+    found += s_history(ctx)
     found += s_roundtrip(ctx, ctx.budget(4, 8))
     found += s_interpolate(ctx, ("linear", "nearest", "cubic") if ctx.tier == "quick"
                            else ("linear", "nearest", "slinear", "cubic", "quintic", "pchip"))
@@ -664,7 +825,7 @@ def run(ctx):
     if ctx.tier == "thorough":
         ctx.leanchecker([MODULE])
     # correspondence
-    for fn in (corr_ylm, corr_grid, corr_modes, corr_bounds):
+    for fn in (corr_ylm, corr_grid, corr_modes, corr_history, corr_bounds):
         try:
             fn(ctx)
         except Exception as ex:  # noqa
@@ -689,6 +850,11 @@ def replay(ctx, obj):
         o = complex(oracle_sYlm(s, l, m, np.array([th]), np.array([ph]))[0])
         print("replay: sYlm(%d,%d,%d,%r,%r) = %r, oracle %r" % (s, l, m, th, ph, v, o))
         n = int(abs(v - o) > 1e-11 * 10) + s_oracle_values(ctx, max(l, 2), 4)
+    elif chk == "history":
+        fails = history_run(obj["s"], obj["lband"], obj["ntheta"], obj["seed"], obj["order"])
+        for f_ in fails[:6]:
+            print("replay: call %d (%s): %s deviates by %r" % f_)
+        n = int(bool(fails))
     elif chk in ("roundtrip", "coeff_sum"):
         r = {k: roundtrip_error(obj["s"], obj["lband"], k, obj["seed"]) for k in (16, 32)}
         print("replay: round trip errors / structure deviations", r)
@@ -718,13 +884,16 @@ MANIFEST = {
             "harmonics with different m are exactly orthogonal on the extraction grid for any l; (T3) at s=0 the closed "
             "form is (-1)^m times the standard Y_lm with associated Legendre functions for l<=4 (code follows Goldberg 1967 "
             "eq 3.1: no Condon-Shortley phase); (T4) conj(sYlm)=(-1)^(s+m) (-s)Y_(l,-m) for all s,l,m; (T5) coefficient and "
-            "reconstruction maps are linear and their composition is multiplication by the discrete Gram matrix; (T6) "
+            "reconstruction maps are linear, depend only on the arguments of the call, and their composition is multiplication "
+            "by the discrete Gram matrix; (T6) "
             "interpolate refuses exactly the targets outside [min,max] of some axis (boundary accepted) and names the first "
             "such axis. NOT proven, watched only numerically on the real code: orthonormality in l and the norm "
             "(Gauss-Legendre x trapezoid quadrature of all pairs up to lmax 6/10), spin-0 reduction beyond l=4 (scipy "
             "sph_harm_y), an independent Wigner-d/Jacobi evaluation of every (s,l,m), round trip of band-limited fields, "
             "RegularGridInterpolator exactness at nodes / on trilinear fields, convergence of rel['Psi4_lm'] on an injected "
-            "pure mode.",
+            "pure mode; absence of hidden state in sYlm_coefficients / sYlm_reconstruct (several samplings of one array "
+            "shape — midpoint, Gauss-Legendre x offset phi, jittered — in one process, varying order, first revisited; on "
+            "the Gauss-Legendre grid the round trip and the Gram matrix are exact to round-off).",
     "note": "Trusted: Lean kernel + propext/Classical.choice/Quot.sound; the hand-written model (sYlm tie is a float "
             "comparison at 1e-12 because cos/sin/sqrt/pi are transcendental: Pythagorean points, s in -2..2, l<=6 quick / "
             "10 thorough, all |m|<=l and |m|>l, l<|s|; grids/weights bitwise; bounds decisions exact on dyadic rationals); "
